@@ -1301,6 +1301,30 @@ struct Explorer {
     }
   }
 
+  /// C14 for command-line arguments: the same invocation with every path argument written canonically
+  /// must do the same thing (exit status, commands started, resulting world).
+  void CheckSpelledArgs(const Op& op, const RunResult& r, const vfs::Disk& before, const vfs::Disk& after,
+                        vector<Violation>* out) {
+    if (op.canonical_args.empty() || r.hang || r.crashed || r.horizon) return;
+    RunConfig cfg = op.cfg;
+    cfg.args = op.canonical_args;
+    cfg.allow_interrupt = false;
+    vfs::Disk d2 = before;
+    RunResult r2 = RunNinja(&d2, cfg, r.choices);
+    st.invocations++;
+    bool same = r.exit_code == r2.exit_code && js::Dump(StartedList(r)) == js::Dump(StartedList(r2)) &&
+                WorldKey(after) == WorldKey(d2);
+    if (same) return;
+    Violation x; x.prop = "C14"; x.clause = "spelling-of-an-argument-matters";
+    string ca;
+    for (auto& a : op.canonical_args) ca += a + " ";
+    x.detail = "'" + op.label + "' exits " + to_string(r.exit_code) + " having started " + js::Dump(StartedList(r)) +
+               "; with canonical arguments (" + ca + ") ninja exits " + to_string(r2.exit_code) + " having started " +
+               js::Dump(StartedList(r2)) + (WorldKey(after) == WorldKey(d2) ? "" : "; the resulting trees / logs differ");
+    x.facts.set("tool", op.tool ? op.tool_kind : string("build"));
+    out->push_back(x);
+  }
+
   /// C08 at process level: what ninja (any invocation) does to an existing build log.
   ///  * a log of an unsupported version is discarded with a warning, never an error;
   ///  * `-t restat [outputs]` changes only recorded mtimes (to the files' current ones, 0 when missing);
@@ -1885,7 +1909,7 @@ struct Explorer {
   void CheckTwin(const Op& op, const RunResult& r, const vfs::Disk& before, const vfs::Disk& after,
                  const RunResult& rt, const vfs::Disk& twin_before, const vfs::Disk& twin_after,
                  vector<Violation>* out) {
-    const char* prop = sc.tags.count("dyndep") ? "C11" : "C10";
+    const char* prop = sc.tags.count("spelling") ? "C14" : sc.tags.count("dyndep") ? "C11" : "C10";
     if (r.hang || r.crashed || r.horizon) return;
     const Variant* v = VariantOf(sc, before);
     if (!v) return;
@@ -2399,7 +2423,8 @@ struct Explorer {
     }
     vfs::Disk twin_after = w.twin;
     unique_ptr<RunResult> twin_res;
-    if (!sc.twin_variants.empty() && !op.tool) {
+    if (!sc.twin_variants.empty()) {
+      // (tools are applied to the twin as well, so that the two worlds stay in step; only builds are compared)
       RunConfig tcfg = op.cfg;
       tcfg.allow_interrupt = false;
       twin_res.reset(new RunResult(RunNinja(&twin_after, tcfg, {})));
@@ -2431,6 +2456,7 @@ struct Explorer {
         x.detail = "'" + op.label + "' does not terminate on this graph";
         vs.push_back(x);
       }
+      if (props.count("C14")) CheckSpelledArgs(op, r, w.disk, d, &vs);
       if (props.count("C08")) CheckLogHandling(op, r, w.disk, d, &vs);
       if (props.count("C09")) CheckDepsLogHandling(op, r, w.disk, d, &vs);
       if (op.tool && op.tool_kind.compare(0, 5, "clean") == 0) {
@@ -2454,7 +2480,7 @@ struct Explorer {
         if (Want("C06")) CheckLimits(op, r, &vs, &d);
         if (Want("C17")) CheckCycle(op, r, w.disk, d, &vs);
         if (Want("C20")) CheckTranscript(op, r, &vs);
-        if (twin_res && (Want("C10") || Want("C11"))) CheckTwin(op, r, w.disk, d, *twin_res, w.twin, twin_after, &vs);
+        if (twin_res && !op.tool && (Want("C10") || Want("C11") || Want("C14"))) CheckTwin(op, r, w.disk, d, *twin_res, w.twin, twin_after, &vs);
         if (op.expect_error && Want("C11") && !r.hang && !r.crashed && r.exit_code == 0) {
           Violation x; x.prop = "C11"; x.clause = "invalid-dyndep-accepted";
           x.detail = "the dyndep information is invalid for this graph but the build succeeded (started " +
